@@ -325,6 +325,32 @@ def case(draw):
     return {"g": g, "dt": draw(st.sampled_from([0.5, 10.0, 1024.0]))}
 
 
+TINY = [0.0, 5e-324, 1e-323, 1.5e-323, 2e-323, 4e-323, 2.2250738585072014e-308, 4.450147717014403e-308, 1e-300]
+
+
+@st.composite
+def tiny_case(draw):
+    """Geometries at the very bottom of the float range: sub-normal times and frequencies (a time stamp of one sub-normal step is as
+    valid as any other non-negative time); bounds, features and anchor points still follow from the coordinates."""
+    kind = draw(st.sampled_from(["TimeStamp", "TimeInterval", "BoundingBox", "Point", "LineString", "MultiPoint"]))
+    v = st.sampled_from(TINY)
+    if kind == "TimeStamp":
+        c = draw(v)
+    elif kind == "TimeInterval":
+        c = sorted([draw(v), draw(v)])
+    elif kind == "BoundingBox":
+        t, f = sorted([draw(v), draw(v)]), sorted([draw(v), draw(v)])
+        c = [t[0], f[0], t[1], f[1]]
+    elif kind == "Point":
+        c = [draw(v), draw(v)]
+    elif kind == "LineString":
+        ts = sorted(draw(st.lists(v, min_size=2, max_size=4, unique=True)))
+        c = [[t, draw(v)] for t in ts]
+    else:
+        c = [[draw(v), draw(v)] for _ in range(draw(st.integers(1, 3)))]
+    return {"g": {"type": kind, "coordinates": c, "meta": {"ts": 1.0, "fs": 1.0, "free": False, "flip": False, "deg": None, "t_off": 0.0, "f_off": 0.0}}, "dt": 10.0}
+
+
 @st.composite
 def bad_pos_case(draw):
     return {"g": draw(geometry_spec(small=True)), "pos": draw(st.sampled_from(["left-top", "middle", "center-center", "top", "", "Bottom-Left", "right-bottom"]))}
@@ -332,5 +358,6 @@ def bad_pos_case(draw):
 
 SUBS = [
     Sub("coords_vs_api", check, strategy=case, quick=16000, thorough=400000, min_nontrivial=0.3),
+    Sub("tiny_coordinates", check, strategy=tiny_case, quick=600, thorough=10000, min_nontrivial=0.2),
     Sub("unknown_position", check_bad_position, strategy=bad_pos_case, quick=800, thorough=8000),
 ]
